@@ -40,6 +40,9 @@ impl ValueView for ValueCow {
     uninterp spec fn scalar_of(&self) -> Option<ScalarCow>;
     uninterp spec fn kstr_of(&self) -> KStringCow;
     uninterp spec fn array_of(&self) -> Option<Seq<VId>>;
+    uninterp spec fn nil_of(&self) -> bool;
+    #[verifier::external_body]
+    fn is_nil(&self) -> (r: bool) { unimplemented!() }
     #[verifier::external_body]
     fn as_scalar(&self) -> (r: Option<ScalarCow>) { unimplemented!() }
     #[verifier::external_body]
@@ -273,6 +276,9 @@ impl<'p> ValueView for ForloopObject<'p> {
     uninterp spec fn scalar_of(&self) -> Option<ScalarCow>;
     uninterp spec fn kstr_of(&self) -> KStringCow;
     uninterp spec fn array_of(&self) -> Option<Seq<VId>>;
+    uninterp spec fn nil_of(&self) -> bool;
+    #[verifier::external_body]
+    fn is_nil(&self) -> (r: bool) { unimplemented!() }
     #[verifier::external_body]
     fn as_scalar(&self) -> (r: Option<ScalarCow>) { unimplemented!() }
     #[verifier::external_body]
@@ -426,6 +432,9 @@ impl ValueView for TableRowObject {
     uninterp spec fn scalar_of(&self) -> Option<ScalarCow>;
     uninterp spec fn kstr_of(&self) -> KStringCow;
     uninterp spec fn array_of(&self) -> Option<Seq<VId>>;
+    uninterp spec fn nil_of(&self) -> bool;
+    #[verifier::external_body]
+    fn is_nil(&self) -> (r: bool) { unimplemented!() }
     #[verifier::external_body]
     fn as_scalar(&self) -> (r: Option<ScalarCow>) { unimplemented!() }
     #[verifier::external_body]
